@@ -34,7 +34,13 @@ typedef char CH;
 #else
 # define GUARD 8
 #endif
-#define CANARY ((CH)0x5A)
+/* every byte of a fresh output buffer is non-zero (also the upper bytes of a wide character): a store that writes fewer
+   bytes than a character has leaves a visibly wrong character behind */
+#ifdef DRV_WIDE
+# define CANARY ((CH)0x5A5A5A5A)
+#else
+# define CANARY ((CH)0x5A)
+#endif
 
 /* ------------------------------------------------------------------ fields */
 #define MAXF 64
